@@ -44,6 +44,8 @@ type ssaInfo struct {
 	NumSteps int
 	HasCirc  bool
 	MaxBits  int
+	ConstPad int // constant inputs whose wires are padded / truncated by the streamer
+	SignPad  int // ... of signed type defined narrower than used (sign-extending pad)
 }
 
 func valueKey(v *ssa.Value) string {
@@ -112,6 +114,11 @@ func analyse(prog *ssa.Program) *ssaInfo {
 		return int(n)
 	}
 	si.NumSteps = len(prog.Steps)
+	constBitsOf := map[string]int{}
+	for _, c := range prog.Constants {
+		v := c.Const
+		constBitsOf[valueKey(&v)] = int(v.Type.Bits)
+	}
 	for idx := range prog.Steps {
 		in := &prog.Steps[idx].Instr
 		si.OpCount[in.Op.String()]++
@@ -132,6 +139,12 @@ func analyse(prog *ssa.Program) *ssaInfo {
 			}
 			ws = append(ws, o)
 			if v.Const {
+				if n, ok := constBitsOf[valueKey(v)]; ok && n != int(v.Type.Bits) {
+					si.ConstPad++
+					if v.Type.Type == types.TInt && n < int(v.Type.Bits) {
+						si.SignPad++
+					}
+				}
 				continue
 			}
 			seen := map[string]bool{}
